@@ -94,6 +94,46 @@ CLAIMS = {
              "for the ordered adapters), lower bounds are saturating sums of upstream-or-0 and the count, no unchecked arithmetic; collections "
              "return (len, Some(len)) of one len() call; merges keep the (0, None) default.",
         note=TB + "Genuine defect D7 found by this rule was repaired (fix: 3be6042). Assumes honest upstream hints."),
+    "C11": dict(
+        technique="custom MIR analysis: variant-region must-pass-through + return-value provenance in the merge poll functions; who-may-touch-the-groups-vector table",
+        text="Decides structurally that the bounded merge returns exactly the drained payload after re-arming (not removing) that source and "
+             "without draining again, removes a source exactly on its None, constructs Pending/None only where the drain did; the unbounded "
+             "merge's push is append-only, its poll_next forwards items unchanged, removes a group only when exhausted and ends only when "
+             "no group is left, polling every group before Pending. The multiset-union statement over all scripts is NOT decided.",
+        note=TB + "Leans on C02 R2.4 and C01 R1.6/R1.7 (re-evaluated in this check)."),
+    "C12": dict(
+        technique="token-accounting over the resolved call graph: who-may-poll-a-child table, enqueue-site dominance by the flag transition, who-may-mark table, flag-clear who-may table",
+        text="Decides in full at the structural level the three steps of the token argument: child polls only behind a dequeue of that slot "
+             "(no poll-all iteration), enqueues only on the false->true flag transition from exactly {push, from_iter, merge re-arm, wake}, "
+             "flag cleared only by the dequeue. The inequality polls <= pushes + wakes (+ merge items) is their sum.",
+        note=TB + "Assumes cordyceps delivers each enqueued node exactly once."),
+    "C13": dict(
+        technique="natural-loop analysis (budget counter / constant bound / exit-with-self-wake) + path-sensitive cursor-advance rule in the group loops",
+        text="Decides that every loop containing a child poll is budgeted by a constant and exits through a task self-wake, that the merge's "
+             "re-drain loop only repeats after removing a source, and that the unbounded variants advance their group cursor after every "
+             "inner poll that did not remove the group (two known findings: not advanced after a yield). FIFO of the ready queue is "
+             "cordyceps' (trusted); the numeric bound is not decided.",
+        note=TB + "Known findings D4 (x2) are listed in known_findings.json."),
+    "C14": dict(
+        technique="who-may-wake-the-task table over all Waker::wake* / DiatomicWaker::notify call sites with dominance licences; def-use audit of Context::waker results; type audit for stored wakers",
+        text="Decides that the task waker is invoked only at the two licensed self-wake sites (budget exhausted, queue inconsistent), that "
+             "notify happens only on the not-queued->queued transition, that push/re-arm never notify, and that the task waker is neither "
+             "stored nor cloned by the crate. The '(held + 2) polls' figure is not decided.",
+        note=TB),
+    "C15": dict(
+        technique="parameter-taint analysis for capacity-derived subtraction over the constructor call closure + observer data/control-dependence sets with sibling cross-check + refusal-path side-effect audit",
+        text="Decides that no constructor (transitively) subtracts from the capacity unguarded (capacity 0/1 construct), that a refused push "
+             "has no side effect (slot map all-or-none, no closure call, forwarders without own effects, panic only after refusal), that "
+             "len/is_empty/is_terminated of each collection read the same counting state (ordered: running+parked exactly), and that the "
+             "slot map refuses only when the free-list head indexes no slot. Observer values over all histories are NOT decided.",
+        note=TB + "Genuine defect D5 found by R15.1 was repaired (fix: e56d99d)."),
+    "C18": dict(
+        technique="may-allocate effect analysis over the resolved crate call graph with a frozen table of allocating core/alloc entry points; dominance of growth sites; must-pass-through of group retention",
+        text="Decides that no post-construction function of the bounded family reaches an allocating callee, that the unbounded collections "
+             "allocate only behind 'no group yet' / 'last group refused' with geometric (x>=2) capacities, re-push only the removed group in "
+             "poll_next, retain the last/only group, and that the ordered poll_next allocate only through BinaryHeap::push. The logarithmic "
+             "bound itself is not decided.",
+        note=TB + "User code (children, closures, task waker) is outside the crate by the property's own observation rule."),
 }
 
 NOT_APPLICABLE = {}
